@@ -44,7 +44,9 @@ class RuleInclude(Leaf):
         super().link(grammar)
         name = self.name
         assert name and isinstance(name, str), f'{self!r} {self.name!r}'
-        self._exp = grammar.rulemap[name].exp
+        rule = grammar.rulemap[name]
+        # NOTE: the expression of a based rule starts with the one of its base
+        self._exp = rule.rhs if isinstance(rule, BasedRule) else rule.exp
         assert isinstance(self._exp, Model), f'{self!r}\n{self.name!r}\n{self._exp!r}'
 
     def missing_rules(self, rulenames: set[str]) -> set[str]:
@@ -93,7 +95,10 @@ class BasedRule(Rule):
         self.params = self.params or self.baserule.params
         self.kwparams = self.kwparams or self.baserule.kwparams
 
-        self.rhs = Sequence(ast=[self.baserule.exp, self.exp])
+        # NOTE: the base rule may itself be a based rule (c < b, d < c)
+        base = self.baserule
+        baseexp = base.rhs if isinstance(base, BasedRule) else base.exp
+        self.rhs = Sequence(ast=[baseexp, self.exp])
 
     def _parse(self, ctx: Ctx) -> Any:
         return self._parse_rhs(ctx, self.rhs)
